@@ -11,6 +11,7 @@ const ruleText = "A case is a history of syncs of one publisher on one fresh Sub
 	"Worlds: plain (external HTTP server, no libp2p-HTTP discovery) with address lists [a], [a,b], [a,dead], [dead,a], [b,a]; legacy (serves no IPNI path) [a], [a,b]; p2phttp (libp2phttp over HTTP through a reverse proxy, discovery) [a], [a,b]; stream (two loopback libp2p hosts) [a], [a,b]. " +
 	"single: every fault kind (500, 404, 403, closed connection, TCP reset / stream reset, corrupt body, truncated body, stalled header, stalled body, context cancellation) at EVERY request index of the sync, for heads 1..4, explicit and announce-triggered, segment depth off/1/2, also with a stop position inside the chain and a pre-stored block; followed by a fault-free retry of the same head (and for a subset a third sync in the other mode). " +
 	"pair-same / pair-seq: two faults in one sync, or in two consecutive syncs, then the retry (thorough: all pairs for heads <= 3, pairs that include a stalled response 1 in 12; quick: a seeded sample). hook: FailSync at every hook call index. disc: the discovery request fails. addrchange: the address list changes between syncs (syncer re-creation, sorted-address quirk). random: seeded histories of 3..6 syncs mixing everything. " +
+	"queued: a second, newer head is announced while the stalled sync of the first runs (it is the pending message when that sync fails), the script runs on into the queued sync, then both heads are announced again on a healthy publisher. " +
 	"both: fault-free explicit syncs (heads 1..4, every latest-sync position, every pre-stored subset, segment off/1/2/3) whose observed request log, hook order, store and latest-sync are checked against C04's model AND C01's sync_ad_chain in one Coq checker (both_case_ok). " +
 	"non-trivial = some sync of the history failed AND a later successful sync had to send requests"
 
@@ -259,6 +260,64 @@ func generate(c *vlib.Ctx) []*Hist {
 					for _, seg := range []int{0, 1, 2, 3} {
 						add(&Hist{Fam: "both", Kind: wc.kind, Alive: wc.alive, Cfg: fd.Config{Seg: seg, Latest0: latest, Pre: pre}, Retry: -1, Class: "fault-free",
 							Ops: []fd.Op{mkop("explicit", wc.addrs, head, nil)}})
+					}
+				}
+			}
+		}
+	}
+
+	// ---- a second, newer announcement is queued while the (stalled, failing) sync of the
+	// first one runs, so it is the handler's pending message when that sync fails; the fault
+	// script runs on into the queued sync; then the publisher is healthy and BOTH heads are
+	// announced again: each announcement whose sync failed must be processed
+	for _, wc := range worldCfgs {
+		if !(wc.name == "one" || (wc.kind == "plain" && (wc.name == "two" || wc.name == "alive+dead"))) {
+			continue
+		}
+		for hx := 1; hx <= 2; hx++ {
+			hy := hx + 1
+			for _, seg := range []int{0, 1} {
+				if seg == 1 && wc.kind != "plain" && wc.kind != "stream" {
+					continue
+				}
+				for _, first := range []string{"stallhdr", "stallbody"} {
+					if first == "stallbody" && !(wc.kind == "plain" && wc.name == "one") {
+						continue
+					}
+					var scripts [][]fd.Fault
+					// the queued sync is not faulted / is faulted at its request j
+					scripts = append(scripts, []fd.Fault{{K: first}})
+					kinds := []fd.Fault{{K: "status", N: 500}, {K: "notfound"}, {K: "transport"}, {K: "corrupt"}}
+					if !thorough && !(wc.kind == "plain" && wc.name == "one") {
+						kinds = kinds[:1]
+						if wc.kind == "plain" || wc.kind == "stream" {
+							kinds = []fd.Fault{{K: "status", N: 500}, {K: "transport"}}
+						}
+					}
+					for _, f := range kinds {
+						for j := 0; j < hy+1; j++ {
+							// the first sync consumes 1 element (2 with a second address to fail
+							// over to, 3 on a legacy server): pad generously with ok
+							for _, pad := range []int{0, 1} {
+								sc := []fd.Fault{{K: first}}
+								for q := 0; q < pad+j; q++ {
+									sc = append(sc, fd.Fault{K: "ok"})
+								}
+								sc = append(sc, f)
+								if (j+pad+hx+seg)%2 == 0 || thorough {
+									scripts = append(scripts, sc)
+								}
+							}
+						}
+					}
+					for _, sc := range scripts {
+						a := fd.Op{Mode: "announce2", Addrs: wc.addrs, Head: hx, Head2: hy, Faults: sc, HookFail: -1}
+						cl := "queued+" + first
+						if len(sc) > 1 {
+							cl += "+" + sc[len(sc)-1].String()
+						}
+						add(&Hist{Fam: "queued", Kind: wc.kind, Alive: wc.alive, Cfg: fd.Config{Seg: seg}, Retry: -1, Class: cl,
+							Ops: []fd.Op{a, mkop("announce", wc.addrs, hx, nil), mkop("announce", wc.addrs, hy, nil), mkop("explicit", wc.addrs, hy, nil)}})
 					}
 				}
 			}
